@@ -355,8 +355,11 @@ fn delta_for_tx(
             }
         }
         crate::portfolio::TxActionSpecifics::Split(split_specs) => {
-            new_share_balance = pre_tx_status.share_balance
-                * split_specs.ratio.pre_to_post_factor().into();
+            // Multiply before dividing, so that eg. 3 shares through a
+            // 1.0-for-3.0 split are 1 share, not 0.9999...
+            new_share_balance = (pre_tx_status.share_balance
+                * split_specs.ratio.post_split.into())
+            .div(split_specs.ratio.pre_split);
 
             // In a reverse split, the user is usually required to add a Sell Tx just
             // before the split, if shares are non-fractional, which is most of the
